@@ -75,10 +75,22 @@ var ktypes = []ktInfo{
 	{"BLS12381G2", "bbs", true, "bbs", "Bls12381g2", true},
 }
 
+// key types outside the main generators: import-only (secp256k1 with DER signatures: no key template use in Create, no
+// export) — sampled by their own sweep
+var extraTypes = []ktInfo{
+	{"ECDSASecp256k1DER", "sig", true, "ec", "SECP256K1", false},
+}
+
 func ktByName(n string) *ktInfo {
 	for i := range ktypes {
 		if ktypes[i].name == n {
 			return &ktypes[i]
+		}
+	}
+
+	for i := range extraTypes {
+		if extraTypes[i].name == n {
+			return &extraTypes[i]
 		}
 	}
 
@@ -393,6 +405,8 @@ type Op struct {
 	// FailAt k >= 1: the k-th call (Get, Put or Delete) this operation makes on the storage provider UNDERNEATH the
 	// kms store wrapper fails once with an I/O error; 0 = none
 	FailAt int `json:"failat,omitempty"`
+	// RotKT: rotate with this key type instead of the keyset's own (direct oracle only: outside the model)
+	RotKT string `json:"rotkt,omitempty"`
 	// URI: reopen: number of the primary key URI the fresh key manager is opened with
 	URI int `json:"uri,omitempty"`
 
@@ -433,7 +447,7 @@ type poolKey struct {
 var pool = map[string][]poolKey{}
 
 func buildPool(r *hx.Rng) {
-	for i, kt := range ktypes {
+	for i, kt := range append(append([]ktInfo{}, ktypes...), extraTypes...) {
 		if kt.imp == "" {
 			continue
 		}
@@ -672,6 +686,11 @@ func (w *world) apply(pos int, op Op) Obs {
 	case "rotate":
 		old := w.refID(op.Ref)
 		kt := w.ktOfID(old)
+
+		if op.RotKT != "" {
+			kt = op.RotKT
+		}
+
 		id, kh, err = w.kms.Rotate(kmsapi.KeyType(kt), old)
 	case "get":
 		kh, err = w.kms.Get(w.refID(op.Ref))
@@ -947,7 +966,9 @@ func runHistory(kind string, ops []Op, seed *hx.Rng, tr *hx.Trace) {
 		case "id", "idpub":
 			thumb := strings.HasPrefix(w.idModel[o.ID], "(KThumb")
 
-			if kt != nil && kt.asym && !thumb {
+			// no thumbprint id is expected where the key manager cannot export the public key (ECDSASecp256k1DER), nor
+			// from a Rotate with another key type than the keyset's (outside the model)
+			if kt != nil && kt.asym && !thumb && kt.name != "ECDSASecp256k1DER" && op.RotKT == "" {
 				if op.Kind == "import" {
 					if op.UID == 0 {
 						fail("kid:import-without-id-random", fmt.Sprintf("op %d: imported %s key got id %q, not the thumbprint of its public key", i, kt.name, o.ID))
@@ -1001,7 +1022,8 @@ func runHistory(kind string, ops []Op, seed *hx.Rng, tr *hx.Trace) {
 				fail("export:other-key", fmt.Sprintf("op %d: ExportPubKeyBytes(%q) gave the public key of %d, expected %d", i, old, o.Atom, exp[len(exp)-1]))
 			}
 		case "err":
-			if _, ok := live[old]; ok && (op.Kind == "get" || op.Kind == "rotate") {
+			rotRefusedByDesign := op.Kind == "rotate" && (op.RotKT != "" || w.ktOfID(old) == "ECDSASecp256k1DER")
+			if _, ok := live[old]; ok && (op.Kind == "get" || op.Kind == "rotate") && !rotRefusedByDesign {
 				fail("durable:"+op.Kind+"-fails", fmt.Sprintf("op %d: %s on the live id %q failed", i, op.Kind, old))
 			}
 		case "crashed":
@@ -1039,7 +1061,15 @@ func runHistory(kind string, ops []Op, seed *hx.Rng, tr *hx.Trace) {
 	}
 
 	// same-key behaviour across key managers (functional): what one signs/wraps/encrypts the other accepts
-	if rec.Oracle == "ok" {
+	mixed := false
+
+	for _, op := range ops {
+		if op.RotKT != "" {
+			mixed = true // keysets of mixed key types have no single primitive: the functional check does not apply
+		}
+	}
+
+	if rec.Oracle == "ok" && !mixed {
 		ids := make([]string, 0, len(live))
 		for id := range live {
 			ids = append(ids, id)
@@ -1061,6 +1091,12 @@ func runHistory(kind string, ops []Op, seed *hx.Rng, tr *hx.Trace) {
 	}
 
 	rec.Coq = "CHist " + hx.CoqList(coqOps) + " " + hx.CoqList(coqObsL)
+
+	for _, op := range ops {
+		if op.RotKT != "" {
+			rec.Coq = "" // Rotate with another key type than the keyset's: checked by the direct oracle only
+		}
+	}
 	rec.Observed = obs
 	rec.Class = strings.Join(classParts, ",")
 	rec.Trivial = !nontrivial
@@ -1783,6 +1819,60 @@ func main() {
 				{Kind: "rotate", Ref: 2, Crash: -1, FailAt: f},
 				{Kind: "get", Ref: 2, Crash: -1},
 			}, next(), tr)
+		}
+	}
+
+	// import-only type ECDSASecp256k1DER: import (with / without id), read, export (fails), rotate (fails), reopen, read
+	for _, uid := range []int{0, 1} {
+		for _, c := range []int{-1, 0} {
+			runHistory("sweep-secp256k1der", []Op{
+				{Kind: "import", KT: "ECDSASecp256k1DER", UID: uid, Key: 0, Ref: -1, Crash: -1},
+				{Kind: "get", Ref: 0, Crash: -1},
+				{Kind: "export", Ref: 0, Crash: -1},
+				{Kind: "rotate", Ref: 0, Crash: c},
+				{Kind: "import", KT: "ECDSASecp256k1DER", UID: uid, Key: 1, Ref: -1, Crash: -1},
+				{Kind: "reopen", Ref: -1, Crash: -1, URI: 2},
+				{Kind: "get", Ref: 0, Crash: -1},
+			}, next(), tr)
+		}
+	}
+
+	// key types the key manager cannot create / import (verification-only, CL types of the ursa build): refused, no store call
+	for _, kt := range []string{"ECDSASecp256k1DER", "RSARS256", "RSAPS256", "CLCredDef", "CLMasterSecret"} {
+		runHistory("sweep-unsupported", []Op{
+			{Kind: "create", KT: "ED25519", Ref: -1, Crash: -1},
+			{Kind: "create", KT: kt, Ref: -1, Crash: -1},
+			{Kind: "createx", KT: kt, Ref: -1, Crash: -1},
+			{Kind: "get", Ref: 0, Crash: -1},
+		}, next(), tr)
+	}
+
+	for _, kt := range []string{"AES256GCM", "X25519ECDHKW", "HMACSHA256Tag256", "RSARS256", "CLCredDef"} {
+		runHistory("sweep-unsupported", []Op{
+			{Kind: "import", KT: kt, UID: 1, Ref: -1, Crash: -1},
+			{Kind: "import", KT: "ED25519", UID: 1, Ref: -1, Crash: -1},
+			{Kind: "get", Ref: 0, Crash: -1},
+		}, next(), tr)
+	}
+
+	// Rotate with ANOTHER key type than the keyset's (outside the model; direct oracle only: whatever it does, every
+	// id the caller holds keeps its keys or moves them under the returned id), every pair of a small type set, with crashes
+	mix := []string{"AES256GCM", "HMACSHA256Tag256", "ED25519", "ECDSAP256DER", "NISTP256ECDHKW", "X25519ECDHKW", "BLS12381G2"}
+
+	for _, a := range mix {
+		for _, b := range mix {
+			if a == b {
+				continue
+			}
+
+			for _, c := range []int{-1, 0, 1} {
+				runHistory("rotate-mismatch", []Op{
+					{Kind: "create", KT: a, Ref: -1, Crash: -1},
+					{Kind: "rotate", Ref: 0, Crash: c, RotKT: b},
+					{Kind: "get", Ref: 0, Crash: -1},
+					{Kind: "get", Ref: 1, Crash: -1},
+				}, next(), tr)
+			}
 		}
 	}
 
